@@ -41,6 +41,12 @@ def _run_one(args):
                 return ("skipped", item, "anchor text not present in this tree")
             with open(p, "wb") as fh:
                 fh.write(b.replace(old, new, 1))
+        elif kind == "meta":
+            # a purely syntactic, behaviour-preserving rewrite of every file (sa/metamorph.py): the rules must not notice
+            for nm in item["transform"].split("+"):
+                r = subprocess.run([sys.executable, os.path.join(VERIF, "sa", "metamorph.py"), nm, tmp], capture_output=True, text=True)
+                if r.returncode != 0:
+                    return ("skipped", item, "transform failed: " + (r.stderr or r.stdout)[-200:])
         else:
             r = subprocess.run(["patch", "-p1", "-s", "-d", tmp, "-i", item["patch"]], capture_output=True, text=True)
             if r.returncode != 0:
@@ -87,6 +93,10 @@ def collect(prop):
             if f.endswith(".patch.diff"):
                 items.append(("patch", {"patch": os.path.join(td, f), "expect": "silent", "note": "behaviour-preserving refactoring twins/%s" % f,
                                         "file": f}))
+    for t in ("rename", "rettemp", "iftemp", "ifexp", "argtemp", "compr2loop", "cmpflip", "swapif", "guard", "unelse",
+              "rename+rettemp+iftemp+ifexp+argtemp+compr2loop+cmpflip+swapif+guard"):
+        items.append(("meta", {"transform": t, "expect": "silent", "file": "metamorph:" + t,
+                               "note": "whole-tree syntactic rewrite sa/metamorph.py " + t}))
     return items
 
 
@@ -106,9 +116,9 @@ def run(prop, repo_root, seed=0, evidence_dir=None):
     for status, item, info in results:
         counts[status] = counts.get(status, 0) + 1
         rows.append({"status": status, "expect": item.get("expect", "detect"), "where": item.get("file"),
-                     "note": item.get("note", ""), "edit": (item.get("new") or item.get("patch") or "")[:80], "report": info})
+                     "note": item.get("note", ""), "edit": (item.get("new") or item.get("patch") or item.get("transform") or "")[:80], "report": info})
         if status in ("MISSED", "FALSE-ALARM", "error"):
-            print("SELFTEST-%s property=%s %s: %s [%s]" % (status, prop, item.get("file"), (item.get("new") or item.get("patch", ""))[:70].replace("\n", "\\n"), info))
+            print("SELFTEST-%s property=%s %s: %s [%s]" % (status, prop, item.get("file"), (item.get("new") or item.get("patch") or item.get("transform", ""))[:70].replace("\n", "\\n"), info))
     print("selftest %s: %s" % (prop, ", ".join("%d %s" % (v, k) for k, v in sorted(counts.items()))))
     # append to the evidence written by the main run
     ev_dir = evidence_dir or os.environ.get("PYSNARK_SA_EVIDENCE_DIR") or os.path.join(VERIF, "evidence")
